@@ -76,6 +76,9 @@ def prepare(defs, cfgs, name, profiles=('dev',)):
     return P
 
 
+VIOLATIONS_REPORTED = [0]      # violations printed by this process (each one replayed natively before it was printed)
+
+
 def known_or_violation(prop, role, summary, replay_record, ev, name):
     k = report.match_known(prop, role)
     if k is not None:
@@ -85,6 +88,7 @@ def known_or_violation(prop, role, summary, replay_record, ev, name):
     log(f'VIOLATION property={prop} replay={path}')
     log(f'  {summary}')
     ev.violations += 1
+    VIOLATIONS_REPORTED[0] += 1
     return 1
 
 
